@@ -357,8 +357,17 @@ func ruleR09_2(c *Ctx) {
 	dl := p.Fn("(*rt/middleware/denco.Router).Lookup")
 	for _, ci := range callsIn(dl, "(*rt/middleware/denco.doubleArray).lookup") {
 		_, a := callArgs(ci.Common())
-		_, isMk := a[1].(*ssa.MakeSlice)
-		c.obI("R09.2", ci, "denco-params-per-call", isMk, "the trie lookup collects parameters into a slice made for this call", "params buffer "+describe(a[1]))
+		var buf ssa.Value
+		for _, x := range a {
+			if typeStr(x.Type()) == "[]rt/middleware/denco.Param" {
+				buf = x
+			}
+		}
+		isMk := false
+		if buf != nil {
+			_, isMk = buf.(*ssa.MakeSlice)
+		}
+		c.obI("R09.2", ci, "denco-params-per-call", isMk, "the trie lookup collects parameters into a slice made for this call", "params buffer "+describe(buf))
 	}
 	c.min("R09.2", 6)
 }
